@@ -33,6 +33,16 @@ func zipFields(d []byte) []Field {
 	// second central-directory entry when there is one (the first is often special-cased), else the first
 	n := le16(d, e+10)
 	pos := cd
+	// a ZIP64 extended-information record in the first entry, when it has one
+	if cd+46 <= len(d) && bytes.Equal(d[cd:cd+4], []byte("PK\x01\x02")) {
+		ex := cd + 46 + le16(d, cd+28)
+		for end := ex + le16(d, cd+30); ex+4 <= end && end <= len(d); ex += 4 + le16(d, ex+2) {
+			if le16(d, ex) == 1 {
+				f = append(f, Field{Name: "cd.z64ExtraSize", Off: ex + 2, Size: 2})
+				break
+			}
+		}
+	}
 	if n > 1 && pos+46 <= len(d) {
 		next := pos + 46 + le16(d, pos+28) + le16(d, pos+30) + le16(d, pos+32)
 		if next+46 <= len(d) && bytes.Equal(d[next:next+4], []byte("PK\x01\x02")) {
@@ -341,4 +351,73 @@ func FieldsOf(format string, d []byte) []Field {
 		return tarFields(d)
 	}
 	return nil
+}
+
+// Stream is a nested compressed stream inside a container (a member whose decoder is fed through a pipe / runs in a
+// helper goroutine); Apply garbles it in place.
+type Stream struct {
+	Name      string
+	Off, Len  int
+	SuffixOff int // position of a 2-byte compression suffix in the member name (0 = none)
+}
+
+func (s Stream) Apply(d []byte, how string) bool {
+	switch how {
+	case "garble-early":
+		if s.Len < 64 {
+			return false
+		}
+		for i := 12; i < 28; i++ {
+			d[s.Off+i] ^= 0x5a
+		}
+	case "garble-mid":
+		if s.Len < 64 {
+			return false
+		}
+		for i := s.Len / 2; i < s.Len/2+16; i++ {
+			d[s.Off+i] ^= 0x5a
+		}
+	case "suffix":
+		if s.SuffixOff == 0 {
+			return false
+		}
+		copy(d[s.SuffixOff:], "zz")
+	}
+	return true
+}
+
+// StreamsOf locates nested compressed streams: the control and data members of a .deb, the compressed table of
+// contents of a xar.
+func StreamsOf(typ string, d []byte) []Stream {
+	var out []Stream
+	switch typ {
+	case "deb":
+		if !bytes.HasPrefix(d, []byte("!<arch>\n")) {
+			return nil
+		}
+		pos := 8
+		for pos+60 <= len(d) {
+			name := string(bytes.TrimRight(d[pos:pos+16], " /"))
+			var size int
+			for _, c := range bytes.TrimSpace(d[pos+48 : pos+58]) {
+				size = size*10 + int(c-'0')
+			}
+			if pos+60+size > len(d) {
+				break
+			}
+			if len(name) > 12 && (name[:11] == "control.tar" || name[:8] == "data.tar") {
+				out = append(out, Stream{Name: "deb." + name[:7], Off: pos + 60, Len: size, SuffixOff: pos + len(name) - 2})
+			}
+			pos += 60 + size + size%2
+		}
+	case "pkg":
+		if len(d) >= 28 && string(d[:4]) == "xar!" {
+			hs := int(d[4])<<8 | int(d[5])
+			tl := int(be32(d, 12))
+			if hs+tl <= len(d) {
+				out = append(out, Stream{Name: "xar.toc", Off: hs, Len: tl})
+			}
+		}
+	}
+	return out
 }
